@@ -800,7 +800,7 @@ class BlockGen:
 
     def stmt(self, depth, infunc):
         r = self.rng
-        kinds = ["assign"] * 6 + ["aug", "expr", "expr", "import", "del", "assert"]
+        kinds = ["assign"] * 6 + ["aug", "expr", "expr", "import", "del", "assert", "lamcomp"]
         if depth < 3:
             kinds += ["for", "while", "if", "if", "try", "with"]
             if self.allow_def:
@@ -815,6 +815,23 @@ class BlockGen:
             return [tg + " = " + self.e()]
         if k == "aug":
             return [self.name() + " " + r.choice(BINOPS) + "= " + self.e()]
+        if k == "lamcomp":
+            # a lambda holding a comprehension, then a read of the comprehension's variable from the namespace: the
+            # variable is private to the comprehension, the later read is a free name of the block / enclosing def
+            self.lamcomp_n = getattr(self, "lamcomp_n", 0) + 1
+            v = r.choice(["row", "item", "cell", "rec"]) + str(self.lamcomp_n)
+            comp = r.choice(["[%s for %s in q_]", "{%s for %s in q_}", "{%s: 1 for %s in q_}", "list(%s for %s in q_)",
+                             "[(%s, w_) for w_ in q_ for %s in w_]"]) % (v, v)
+            lam = r.choice(["lambda q_: " + comp, "lambda q_, *r_: " + comp, "lambda q_: lambda: " + comp])
+            out = [self.name() + " = " + lam]
+            for _ in range(r.choice([0, 0, 1])):
+                out += self.stmt(depth + 1, infunc) if depth < 2 else []
+            out += [r.choice([self.name() + " = " + v, self.name() + " = (" + v + ", " + self.e() + ")",
+                              "assert " + v, self.e() + "\n" + self.name() + " = " + v + ".attr"]).split("\n")]
+            flat = []
+            for x in out:
+                flat += x if isinstance(x, list) else [x]
+            return flat
         if k == "expr":
             return [self.e()]
         if k == "import":
@@ -2068,8 +2085,9 @@ def oracle_blocks(ctx, blocks):
 def name_roles(tree, name):
     """how `name` occurs in the block: a list of role strings (binding and reading positions)"""
     roles = []
+    comp_scopes, read_scopes = [], []       # scope paths () = block level, (id(def), id(lambda), …) below
 
-    def visit(n, infunc, incomp_in_func, inclass):
+    def visit(n, infunc, scope, inclass):
         if isinstance(n, (ast.FunctionDef, ast.Lambda)):
             a = n.args
             if a.vararg and a.vararg.arg == name:
@@ -2095,9 +2113,9 @@ def name_roles(tree, name):
                     if any(isinstance(x, ast.Name) and x.id == name for x in ast.walk(d)):
                         roles.append("read-in-decorator")
                 for b in n.body:
-                    visit(b, True, False, False)
+                    visit(b, True, scope + (id(n),), False)
             else:
-                visit(n.body, True, False, False)
+                visit(n.body, True, scope + (id(n),), False)
             return
         if isinstance(n, ast.ClassDef):
             if n.name == name and infunc:
@@ -2114,9 +2132,9 @@ def name_roles(tree, name):
                         break
             return
         if isinstance(n, (ast.ListComp, ast.SetComp, ast.GeneratorExp, ast.DictComp)):
-            for g in n.generators:
-                if any(isinstance(x, ast.Name) and x.id == name for x in ast.walk(g.target)):
-                    roles.append("comprehension-target-in-function" if infunc else "comprehension-target")
+            own = any(isinstance(x, ast.Name) and x.id == name for g in n.generators for x in ast.walk(g.target))
+            if own:
+                comp_scopes.append(scope)
             if infunc:
                 parts = ([n.key, n.value] if isinstance(n, ast.DictComp) else [n.elt]) + [c for g in n.generators for c in g.ifs]
                 for prt in parts:
@@ -2133,9 +2151,24 @@ def name_roles(tree, name):
                 roles.append("stored-in-nested-function" if infunc else "stored-at-block-level")
             else:
                 roles.append("read-in-nested-function" if infunc else "read-at-block-level")
+                read_scopes.append(scope)
+        if isinstance(n, (ast.ListComp, ast.SetComp, ast.GeneratorExp, ast.DictComp)) and any(
+                isinstance(x, ast.Name) and x.id == name for g in n.generators for x in ast.walk(g.target)):
+            # inside this comprehension the name is the comprehension's own variable: only the first iterable is
+            # evaluated outside it
+            visit(n.generators[0].iter, infunc, scope, inclass)
+            return
         for c in ast.iter_child_nodes(n):
-            visit(c, infunc, incomp_in_func, inclass)
-    visit(tree, False, False, False)
+            visit(c, infunc, scope, inclass)
+    visit(tree, False, (), False)
+    # F12b: a comprehension at block level makes its variable a name "declared" by the block
+    if any(sc == () for sc in comp_scopes):
+        roles.append("comprehension-target")
+    # F12e: a comprehension directly in a function makes its variable a local of THAT function: only reads in that
+    # function (or in functions nested in it) are affected.  A comprehension inside a lambda/def must not affect the
+    # enclosing scope - such a case gets no role and is reported as new.
+    if any(sc != () and any(r[:len(sc)] == sc for r in read_scopes) for sc in comp_scopes):
+        roles.append("comprehension-target-in-function")
     return roles
 
 
@@ -2370,7 +2403,10 @@ CORPUS_BLOCKS = [
     "import os.path\nfrom a import b as c\n", "try:\n    pass\nexcept E as e:\n    print(e)\n", "with a as b, c as (d, e):\n    pass\n",
     "for i, (j, k) in z:\n    pass\nelse:\n    q = i\n",
     "def f():\n    def g():\n        return 1\n    x = g()\n    return x\ny = x\n",
-    "def f(p, /, a, *b, c=1, **d):\n    return lambda *q, r, **s: (p, a, b, c, d, q, r, s)\n", "def f(a, /, b):\n    return a + b\n", "x = (y := z) + y\n",
+    "def f(p, /, a, *b, c=1, **d):\n    return lambda *q, r, **s: (p, a, b, c, d, q, r, s)\n",
+    "f = lambda z: [row for row in z]\ny = row\n",
+    "def g(p):\n    f = lambda z: {item: 1 for item in z}\n    return f(p), item\nv = g(c)\n",
+    "f = lambda z: lambda w: list(cell for cell in w)\nif a:\n    y = cell.upper\n", "def f(a, /, b):\n    return a + b\n", "x = (y := z) + y\n",
 ]
 
 
